@@ -22,6 +22,7 @@ SAT_TXT = {
  'C13': ('TLC: the byte string hashed for a rule is an injective function of (target set, source set, command sequence) over a universe of parser-producible strings; real get_ticket equality on pairs incl. near-misses judged by TLC against Canon equality (Identity.tla)', '7/C13'),
  'C14': ('every line sequence of length <=5 (6) over a 7-letter line alphabet, rendered random rule files with nested bundles, single-edit corruptions and token soup are parsed by the real rule::parse; TLC judges each record with the declarative grammar (RulesGrammar.tla): accept/reject, sets and command lines, error kind and line, invariance under permuting sibling lines', '7/C14'),
  'C19': ('ruler directories are produced by the real binary with shell commands on the real file system, `ruler serve` is started on the loopback interface and asked for every cached hash, every recorded (rule, sources) pair, absent well-formed names and hostile names (wrong length, foreign characters, overflow, encoded ../, extra segments); TLC judges every (request class, answer) record with Server.tla: 200 + exact bytes exactly for what is held, 404 otherwise, server still answering', '7/C19'),
+ 'C15': ('SHA-256 (FIPS 180-4) and the 43-character base-62 form are written out as TLA+ operators (Sha256.tla, Base62.tla, Ticket.tla); TLC checks the FIPS example digests, the padding for every length 0..300 and, exhaustively on the scaled-down instance (2 bytes / 3 digits, same operators), that the text form is a bijection and that exactly the encodings are accepted; the real TicketFactory / Ticket are run in process (files of every length 0..1100 and larger ones read through short reads, factories fed in pieces, 256-bit edge values, candidate strings of length 0..60 with foreign and non-ASCII characters, pairs of directory trees with single-point and concatenation-preserving changes) and the real binary (`ruler hash` on real files up to 300 kB and real directory trees, different paths and ages); TLC computes the expected digest and text itself and judges every record', '17'),
  'C16': ('state files written by ruler itself, every strict prefix / bit flip of small ones, junk and appended bytes are read back by the real readers; TLC judges (damage class, outcome) with Persist.tla; end-to-end: damaged table / history make build return the matching error (C16_DamagedRejected) and every validated trace compares the decoded files with the model state', '7/C16'),
 }
 checks = []
@@ -47,7 +48,6 @@ m = {
  'engines': [{'name': 'tlc+rvh', 'path': '/verif/check', 'serves_properties': [c['property_id'] for c in checks], 'kind_free_text': 'TLA+ specifications under /verif/spec checked by TLC; Rust conformance harness /verif/harness (rvh) driving the real code; python driver /verif/check'}],
  'checks': checks,
  'not_applicable': [
-   {'property_id': 'C15', 'reason': 'numeric / encode-decode fidelity of two pure functions (SHA-256, base-62 on 256-bit values): outside what a TLA+ specification bound to the code can decide (TLC has 32-bit integers, the specification abstracts hashes to identity); see DESIGN.md section 8'},
    ],
  'notes': 'All checks rebuild the harness from /repo/src. exit 2 = tool error. DIVERGENCE lines report executions that the strict trace validator rejects while no property predicate fails (not a violation).',
 }
